@@ -355,7 +355,10 @@ Inductive instr : Type :=
 | IJoin (a b : nat) (name : string) (given : option (list cv)) (matchc : bool)
 | IBinA (a b : nat) (f : fn) (kw : kwargs)
 | IBinC (a : nat) (f : fn) (c : cv) (kw : kwargs)
-| ITransform (a : nat) (body : tbody) (params : list cv) (name : string) (vals : option (list cv)) (axis : Z).
+| ITransform (a : nat) (body : tbody) (params : list cv) (name : string) (vals : option (list cv)) (axis : Z)
+(* a.transform(_batch_transform, [({d: lst[i:i+bs]}, Payload(f, kwargs=kw)) for i in range(0, n, bs)], name):
+   one round of the batching loop, called directly *)
+| IBatchRound (a : nat) (f : fn) (kw : kwargs) (d : string) (bs : nat) (name : string).
 
 Fixpoint ravel (sh idx : list nat) : nat :=
   match sh, idx with
@@ -396,6 +399,7 @@ Definition step (env : list xarr) (ins : instr) : res xarr :=
                           | TBMap f kw => Ok (a_map f [p] kw x)
                           | TBSel d drop => a_select [(d, SOne p)] drop x
                           end) name vals axis params
+  | IBatchRound a f kw d bs name => do x <- getv env a; batch_round_t f kw d bs name x
   end.
 
 (* a program is a list of instructions in SSA form (operands refer to earlier results);
